@@ -39,6 +39,8 @@ EXPECT_LABELS = {'all': ['idle-consistent', 'initial-consistent', 'wait-init-con
 EXPECT_NOTES = {'all': ['burst-multi', 'burst-empty', 'feedback-changed-sblock', 'compare-in-band',
                         'sender-got-unknown-event']}
 FLOORS = {'quick': {'paths': 2000, 'checks': 5000}, 'thorough': {'paths': 20000, 'checks': 50000}}
+# wall-time caps (a run that hits its cap is INCONCLUSIVE, exit 2): the thorough tier has a few shards of 30-50 CPU-minutes
+BUDGET_S = {'quick': 600, 'thorough': 7200}
 
 
 # --- circuit description --------------------------------------------------------------------
